@@ -19,6 +19,7 @@ import os
 import re
 
 from ..cli import cli_flags, documented_confvals
+from ..cfg import call_name
 from ..index import AnalysisError, get_index, norm
 from ..report import Check
 from .c09 import options_attrs
@@ -63,6 +64,7 @@ def run(chk: Check) -> None:
     run_precedence_order(chk, ix)
     run_cli_strict(chk, ix)
     run_replayed_lists_reset(chk, ix)
+    run_comma_lists_stripped(chk, ix)
     O = options_attrs(ix)
     mopt = ix.module("mypy.options")
     mcfg = ix.module("mypy.config_parser")
@@ -533,3 +535,44 @@ def run_replayed_lists_reset(chk: Check, ix) -> None:
             r.ok(key, ps.loc())
         else:
             r.violation(key, ps.loc(), f"apply_changes replays `new_options.{name}`, but a section that does not set `{name}` gets no empty list: it inherits the list of the level it was cloned from and replays it after the levels in between ([mypy] disables X, [mypy-a.*] re-enables X, [mypy-a.b] only enables Y: a.b loses X again, so the global section beats the wildcard)")
+
+
+def run_comma_lists_stripped(chk: Check, ix) -> None:
+    """R17.11: every element of a comma-separated configuration value is stripped before it is used as a name."""
+    r = chk.rule("R17.11", "config_parser.py splits comma-separated values in two ways: the per-option converters (`[p.strip() for p in split_commas(s)]`) and the loop over the module patterns of a section header (`for glob in globs.split(',')`). Users write `a, b`; an element that keeps its leading space is a different name (a pattern ' b' matches no module and the section silently does not apply): each consumer strips the element before using it", floor=5)
+    m = ix.module("mypy.config_parser")
+    n = 0
+    # (a) comprehensions over split_commas(...) / x.split(",")
+    for node in ast.walk(m.tree):
+        if isinstance(node, (ast.ListComp, ast.SetComp, ast.GeneratorExp)) and len(node.generators) == 1:
+            it = node.generators[0].iter
+            is_split = isinstance(it, ast.Call) and (call_name(it) == "split_commas" or (isinstance(it.func, ast.Attribute) and it.func.attr == "split" and it.args and isinstance(it.args[0], ast.Constant) and it.args[0].value == ","))
+            if not is_split or not isinstance(node.generators[0].target, ast.Name):
+                continue
+            v = node.generators[0].target.id
+            n += 1
+            key = f"config_parser.py:{node.lineno}: elements of `{norm(it)[:40]}` are stripped"
+            stripped = any(isinstance(c, ast.Call) and isinstance(c.func, ast.Attribute) and c.func.attr == "strip" and isinstance(c.func.value, ast.Name) and c.func.value.id == v for c in ast.walk(node.elt))
+            if stripped:
+                r.ok(key, f"mypy/config_parser.py:{node.lineno}")
+            else:
+                r.violation(key, f"mypy/config_parser.py:{node.lineno}", f"`{norm(node)[:80]}` uses the raw element: `a, b` yields ' b'")
+    # (b) for-loops over x.split(",")
+    for f in m.functions.values():
+        for lp in ast.walk(f.node):
+            if isinstance(lp, ast.For) and isinstance(lp.iter, ast.Call) and isinstance(lp.iter.func, ast.Attribute) and lp.iter.func.attr == "split" and lp.iter.args and isinstance(lp.iter.args[0], ast.Constant) and lp.iter.args[0].value == "," and isinstance(lp.target, ast.Name):
+                v = lp.target.id
+                n += 1
+                key = f"{f.name}: elements of `{norm(lp.iter)[:40]}` are stripped before use"
+                first_use_stripped = False
+                for st in lp.body:
+                    uses = [x for x in ast.walk(st) if isinstance(x, ast.Name) and x.id == v and isinstance(x.ctx, ast.Load)]
+                    if uses:
+                        first_use_stripped = any(isinstance(c, ast.Call) and isinstance(c.func, ast.Attribute) and c.func.attr == "strip" and isinstance(c.func.value, ast.Name) and c.func.value.id == v for c in ast.walk(st))
+                        break
+                if first_use_stripped:
+                    r.ok(key, f.loc(lp))
+                else:
+                    r.violation(key, f.loc(lp), f"the loop uses `{v}` as it comes out of split(','): `[mypy-a.*, b]` registers the pattern ' b', which matches no module")
+    if n < 5:
+        raise AnalysisError(f"config_parser.py: only {n} consumers of comma-separated values found")
